@@ -11,7 +11,9 @@ WithJson == IOEnv.VF_MODE = "c05"
 
 Has(t, l, d, f, m, doms) == \E k \in 1..Len(Fams) : LET h == Fams[k] IN
    h.t = t /\ h.l = l /\ h.d = d /\ h.f = f /\ h.m = m /\ h.v = 0 /\ h.dom \in doms
-Both(t, l, d, doms) == Has(t, l, d, 0, 1, doms) /\ (WithJson => Has(t, l, d, 1, 1, doms))
+(* the JSON format differs from the text format only in quoting and the null token: it may be run on a sample *)
+Sampled == {"s16", "s16l", "min", "times"}
+Both(t, l, d, doms) == Has(t, l, d, 0, 1, doms) /\ (WithJson => Has(t, l, d, 1, 1, doms \cup Sampled))
 Need(c, what) == c \/ ~PrintT(<<"VF", "MISSING", what>>)
 
 Dom16 == IF Thorough THEN {"all16"} ELSE {"all16", "s16", "s16l"}
@@ -25,7 +27,7 @@ DomOf(t) == LET T == Types[t] IN
 
 ASSUME \A t \in TypeIds : Need(\E k \in 1..Len(Fams) : Fams[k].t = t, <<"type", t>>)
 ASSUME \A t \in PlainNum : \A d \in Divs(t) :
-         Need(Has(t, 0, d, 0, 1, DomOf(t)) /\ (WithJson /\ d = 0 => Has(t, 0, d, 1, 1, DomOf(t))), <<"num", t, d>>)
+         Need(Has(t, 0, d, 0, 1, DomOf(t)) /\ (WithJson /\ d = 0 => Has(t, 0, d, 1, 1, DomOf(t) \cup Sampled)), <<"num", t, d>>)
 ASSUME \A t \in {x \in TypeIds : Types[x].k = "bits"} :
          \A n \in (IF Types[t].bits = 1 THEN {0} ELSE 0..Types[t].bits) : Need(Both(t, n, 0, {"all8"}), <<"bits", t, n>>)
 ASSUME \A t \in {x \in TypeIds : Types[x].k = "date"} :
